@@ -90,13 +90,27 @@ func vExportImport(p string) {
 		zz.Assert(p+".export.counter-equals-window", !okb || ib.MissedBlocksCounter == missed)
 	}
 	zz.Assert(p+".export.pool-backs-recorded-stake", b.Pool().Equal(b.SumStake()))
+	// an unstaking validator is still queued at its completion time, and paid out when that time comes
+	for i := 0; i < 2; i++ {
+		if vb, ok := b.Val(i); ok && vb.Status == sdk.Unstaking {
+			zz.Assert(p+".export.unstaking-validator-still-queued", b.QueueHas(vb.UnstakingCompletionTime, b.Addrs[i]))
+		}
+	}
 	// B's first update reproduces A's Tendermint set; afterwards jailed / unstaking validators have no power
 	tm := &vTMSet{}
 	zz.Assert(p+".export.first-batch-applicable", tm.apply(updates) == "")
 	vEndBlock(b, tm, p+".export.next-block")
+	if vb, ok := b.Val(1); ok && vb.Status == sdk.Unstaking {
+		pre := b.Bal(b.Addrs[1])
+		b.Advance(b.K.UnStakingTime(b.Ctx), 1)
+		keeper.EndBlocker(b.Ctx, b.K)
+		_, still := b.Val(1)
+		zz.Assert(p+".export.unstaking-validator-released-at-maturity", !still && b.Bal(b.Addrs[1]).Sub(pre).Equal(vb.StakedTokens))
+	}
 	zz.Reach(p + ".export.end")
 }
 
 func VerifC04_ExportImport() { vExportImport("C04") }
 func VerifC08_ExportImport() { vExportImport("C08") }
 func VerifC09_ExportImport() { vExportImport("C09") }
+func VerifC06_ExportImport() { vExportImport("C06") }
